@@ -443,7 +443,7 @@ def run(ctx) -> None:
         "files are append-only while open (no seek-back rewrite): the tracers report pwrite-not-at-end / truncate as unknown calls",
         "a swallowed OSError from the directory fsync is not modelled in the main theorems",
     ]
-    ctx.proofs(THEOREMS, gen_files=[])
+    ctx.proofs(THEOREMS, gen_files=["GenDurable.v"])
     ctx.allow_axioms([])
 
     quick = ctx.tier == "quick"
